@@ -168,6 +168,7 @@ type inliner struct {
 	changed map[*ssa.Function]bool
 	num     int
 	budget  map[*ssa.Function]int
+	rec     map[*ssa.Function]bool
 }
 
 // InlineUnknown expands calls to module functions whose String() is not in known.
@@ -290,9 +291,56 @@ func (il *inliner) unknown(f *ssa.Function) bool {
 	return !il.known[f.String()]
 }
 
+// recursive: f can reach itself through static calls to unknown functions.
+func (il *inliner) recursive(f *ssa.Function) bool {
+	if r, ok := il.rec[f]; ok {
+		return r
+	}
+	seen := map[*ssa.Function]bool{}
+	var walk func(g *ssa.Function) bool
+	walk = func(g *ssa.Function) bool {
+		for _, b := range g.Blocks {
+			for _, in := range b.Instrs {
+				cc := CallOf(in)
+				if cc == nil {
+					continue
+				}
+				c := cc.StaticCallee()
+				if c == nil {
+					continue
+				}
+				if c == f {
+					return true
+				}
+				if il.unknown(c) && !seen[c] {
+					seen[c] = true
+					if walk(c) {
+						return true
+					}
+				}
+			}
+		}
+		for _, a := range g.AnonFuncs {
+			if walk(a) {
+				return true
+			}
+		}
+		return false
+	}
+	r := walk(f)
+	if il.rec == nil {
+		il.rec = map[*ssa.Function]bool{}
+	}
+	il.rec[f] = r
+	return r
+}
+
 func (il *inliner) inlinable(f *ssa.Function) (bool, string) {
 	if f.Recover != nil {
 		return false, "has a recover block"
+	}
+	if il.recursive(f) {
+		return false, "recursive"
 	}
 	n := 0
 	for _, b := range f.Blocks {
@@ -344,7 +392,7 @@ func (il *inliner) expand(fn *ssa.Function, stack map[*ssa.Function]bool) {
 				if _, isClosure := in.(*ssa.Call).Call.Value.(*ssa.MakeClosure); isClosure {
 					continue
 				}
-				if stack[callee] {
+				if stack[callee] || il.recursive(callee) {
 					il.stats.Kept[callee.String()] = "recursive"
 					continue
 				}
@@ -1403,7 +1451,6 @@ func (p *Prog) allowedFunc(fn *ssa.Function, allowed func(f *ssa.Function) bool,
 	}
 	return true
 }
-
 
 // DefinitelyNonNil: v cannot be nil - a freshly made interface value or
 // allocation, or the result of a constructor that never returns nil
